@@ -302,6 +302,22 @@ func runHeap(c heapCase, r *pb.Rec) error {
 					model[nv.ID], known[nv.ID] = nv, e
 					r.Class("push during PopAll")
 				}
+				if o.B == 1 && n%2 == 1 && len(model) > 0 {
+					// ... or takes a further element itself (a batch consumer): PopAll goes on with what is left
+					e := h.Pop()
+					if e == nil {
+						bad = fmt.Errorf("Pop inside a PopAll loop returned nil with %d elements stored", len(model))
+						return false
+					}
+					if m, ok := model[e.Value.ID]; !ok || m != e.Value {
+						bad = fmt.Errorf("Pop inside a PopAll loop returned %+v which is not a live element", e.Value)
+						return false
+					}
+					delete(model, e.Value.ID)
+					delete(known, e.Value.ID)
+					stale = append(stale, e)
+					r.Class("pop during PopAll")
+				}
 				n++
 				return n-1 != stopAt
 			})
@@ -526,6 +542,15 @@ func runSlice(c sliceCase, r *pb.Rec) error {
 					s.Push(nv)
 					model[id] = nv
 					r.Class("push during PopAll")
+				}
+				if o.B == 1 && n%2 == 1 && len(model) > 0 {
+					x, ok := s.Pop()
+					if m, in := model[x.ID]; !ok || !in || m != x {
+						bad = fmt.Errorf("Pop inside a PopAll loop returned %+v,%v with %d elements stored", x, ok, len(model))
+						return false
+					}
+					delete(model, x.ID)
+					r.Class("pop during PopAll")
 				}
 				n++
 				return n-1 != stopAt
@@ -1034,16 +1059,16 @@ func index(vs []val, id int) int {
 }
 
 func init() {
-	pb.Register("heap_handles", pb.Options{Base: 10000, Required: []string{"stale handle", "foreign handle", "fix moved up", "fix moved down", "remove by handle in the middle", "popped element pushed again", "Init", "PopAll", "push during PopAll", "handle learned through Peek after Init", "Remove/Fix by a handle of an Init-built heap", "Init with another comparator"},
+	pb.Register("heap_handles", pb.Options{Twins: 3, Base: 10000, Required: []string{"stale handle", "foreign handle", "fix moved up", "fix moved down", "remove by handle in the middle", "popped element pushed again", "Init", "PopAll", "push during PopAll", "pop during PopAll", "handle learned through Peek after Init", "Remove/Fix by a handle of an Init-built heap", "Init with another comparator"},
 		Rule: "<= 80 operations on Heap[T] (New with cap 0..4): Push, PushElement (fresh / previously popped element), Pop, Peek, Remove/Fix with live, stale and foreign handles, Init (old handles dropped; handles of the new content are learned through Peek/Pop and then used for Remove/Fix), PopAll (also with pushes from inside the loop body and early stop); values 0..5 with ties, four strict weak orders; oracle: multiset model keyed by handle identity (Pop/Peek minimal live handle, Index()==-1 after leaving, stale/foreign ignored, Len, final drain by identity sorted); non-trivial = Remove/Fix by handle at a non-root non-last position on a heap of >= 4 elements with a tie"},
 		genHeap, runHeap)
-	pb.Register("slice_heap", pb.Options{Base: 10000, Required: []string{"index out of range", "push during PopAll"},
+	pb.Register("slice_heap", pb.Options{Twins: 3, Base: 10000, Required: []string{"index out of range", "push during PopAll", "pop during PopAll"},
 		Rule: "FromSlice of 0..8 values then <= 60 Push/Pop/Peek/Remove(i)/Fix(i)/PopAll with i in -1..12; oracle: multiset model by element id, !less(child,parent) over Values and Len after every call; non-trivial = Remove/Fix at an inner index of >= 4 elements"},
 		genSlice, runSlice)
 	pb.Register("heap_large", pb.Options{Base: 250, Required: []string{">= 4096 elements at construction", "capacity >= 1024 at most a quarter full", "large heap drained below a quarter"},
 		Rule: "the five forms (New+Push, Heap.Init, FromSlice, NewSlice+Push, generic Init on a caller container) with 0..9000 initial elements (sizes around 256/1024/4096/8192 sampled), requested capacities 0..20000, value spans 2..2^30, a first drain of 0..100%, up to 60 Remove/Fix by handle or index, up to 3000 further pushes, final drain; oracle: container/heap on the same multiset under the same order (no remaining element precedes the popped one, element identity by id, Len after every Pop), heap order of Values after each phase; non-trivial = >= 256 initial elements"},
 		genBig, runBig)
-	pb.Register("generic_interface", pb.Options{Base: 8000,
+	pb.Register("generic_interface", pb.Options{Twins: 3, Base: 8000,
 		Rule: "the generic Init/Push/Pop/Remove/Fix over a plain slice container and an index-tracking container, in lock step with container/heap on the same sequence; oracle: heap order after every call, index bookkeeping, equal multisets, popped values in the same priority class as container/heap's; non-trivial = Remove/Fix at an inner index of >= 4 elements"},
 		genSlice, runGeneric)
 }
